@@ -326,6 +326,102 @@ def state_slot(e):
     return "other"
 
 
+def slot_pointer_tops(f, cfg, table="ctx_state", index="ctx_state_idx", push="spifconf_register_context_state"):
+    """ids of the stores `p->state = ..` made through a local pointer into the context stack that points at the top entry at
+    that moment.  Forward dataflow of the pointer's offset from the *current* top index: p = table + index (k = 0),
+    p++ / p-- / p += c move the pointer, index++ / index-- / a push move the top."""
+    def off_of(e):
+        """c if e is `index + c` (c constant), else None"""
+        s_ = X.strip(e)
+        if s_ is None:
+            return None
+        if glob_ref(s_, index) is not None:
+            return 0
+        if s_.get("k") == "bin" and s_.get("op") in ("+", "-"):
+            a_, b_ = off_of(s_["ch"][0]), X.const_val(s_["ch"][1])
+            if a_ is not None and b_ is not None:
+                return a_ + b_ if s_["op"] == "+" else a_ - b_
+        return None
+
+    def place(e):
+        """offset from the top if e is table + (index + c) / &table[index + c]"""
+        s_ = X.strip(e)
+        if s_ is None:
+            return None
+        if s_.get("k") == "un" and s_.get("op") == "&":
+            t_ = X.strip(s_["ch"][0])
+            if t_ is not None and t_.get("k") == "index" and glob_ref(t_["ch"][0], table) is not None:
+                return off_of(t_["ch"][1])
+            return None
+        if s_.get("k") == "bin" and s_.get("op") in ("+", "-") and s_.get("tp"):
+            if glob_ref(s_["ch"][0], table) is not None and s_["op"] == "+":
+                return off_of(s_["ch"][1])
+            a_ = place(s_["ch"][0])
+            c_ = X.const_val(s_["ch"][1])
+            if a_ is not None and c_ is not None:
+                return a_ + c_ if s_["op"] == "+" else a_ - c_
+        return None
+    tops = set()
+
+    def shift(state, delta):
+        return frozenset((d_, k_ + delta) for d_, k_ in state)
+
+    def transfer(state, n, blk):
+        k = n.get("k")
+        if k == "assign":
+            l_ = X.strip(n["ch"][0])
+            if l_ is not None and l_.get("k") == "ref" and l_.get("rk") == "local" and l_.get("tp"):
+                st = frozenset(x for x in state if x[0] != l_["d"])
+                if n.get("op") == "=":
+                    r_ = X.strip(n["ch"][1])
+                    v_ = place(n["ch"][1])
+                    if v_ is None and r_ is not None and r_.get("k") == "ref":
+                        v_ = dict(state).get(r_.get("d"))
+                    return st | {(l_["d"], v_)} if v_ is not None else st
+                cur = dict(state).get(l_["d"])
+                c_ = X.const_val(n["ch"][1])
+                if cur is not None and c_ is not None and n.get("op") in ("+=", "-="):
+                    return st | {(l_["d"], cur + c_ if n["op"] == "+=" else cur - c_)}
+                return st
+            if glob_ref(n["ch"][0], index) is not None:
+                c_ = X.const_val(n["ch"][1])
+                if c_ is not None and n.get("op") in ("+=", "-="):
+                    return shift(state, -c_ if n["op"] == "+=" else c_)
+                return frozenset()
+        if k == "un" and n.get("op") in ("++", "--"):
+            l_ = X.strip(n["ch"][0])
+            if glob_ref(n["ch"][0], index) is not None:
+                return shift(state, -1 if n["op"] == "++" else 1)
+            if l_ is not None and l_.get("k") == "ref" and l_.get("rk") == "local":
+                cur = dict(state).get(l_["d"])
+                st = frozenset(x for x in state if x[0] != l_["d"])
+                return st | {(l_["d"], cur + (1 if n["op"] == "++" else -1))} if cur is not None else st
+        if k == "decl":
+            st = state
+            for dcl in n.get("decls", ()):
+                st = frozenset(x for x in st if x[0] != dcl["d"])
+                if dcl.get("init") is not None and place(dcl["init"]) is not None:
+                    st = st | {(dcl["d"], place(dcl["init"]))}
+            return st
+        if k == "call":
+            cn = X.callee_name(n)
+            if cn == push:
+                return shift(state, -1)
+            if cn is not None and not re.match(r"libast_|spiftool_|str|mem|f?printf|free|spifmem_|fclose|fopen", cn):
+                return frozenset()          # a call that may push or pop
+        return state
+
+    def visit(state, n, blk):
+        if n.get("k") == "assign" and n.get("op") == "=":
+            l_ = X.strip(n["ch"][0])
+            if l_ is not None and l_.get("k") == "member" and l_.get("arrow") and l_.get("n") == "state":
+                b_ = X.strip(l_["ch"][0])
+                if b_ is not None and b_.get("k") == "ref" and dict(state).get(b_.get("d")) == 0:
+                    tops.add(n["i"])
+    flow.forward(cfg, frozenset(), transfer, join=lambda a, b: a & b, visit=visit)
+    return tops
+
+
 def check_handler_protocol(chk, unit):
     """the handler call sites of spifconf_parse_line and of the unit-local helpers it hands the begin / end protocol to"""
     from .listrules import unit_closure
@@ -342,6 +438,7 @@ def _handler_protocol_in(chk, unit, f):
     calls = handler_calls(f)
     n = 0
     cfg = nullness.prepared_cfg(f, NORETURN)
+    ptr_tops = slot_pointer_tops(f, cfg) if calls else set()
     for c, a0, a1 in calls:
         s0 = X.strip(a0)
         lit = s0.get("sv") if s0.get("k") == "str" else None
@@ -400,7 +497,7 @@ def _handler_protocol_in(chk, unit, f):
             elif tgt.get("k") == "ref" and tgt.get("rk") == "local":
                 # via a local: some later store of that local into the top slot
                 for m in walk(f.body):
-                    if m.get("k") == "assign" and state_slot(m["ch"][0]) == "top":
+                    if m.get("k") == "assign" and (state_slot(m["ch"][0]) == "top" or m["i"] in ptr_tops):
                         r = X.strip(m["ch"][1])
                         if r.get("k") == "ref" and r.get("d") == tgt["d"] and cfg.node_dominates(par["i"], m["i"]):
                             stored = True
